@@ -231,6 +231,11 @@ def units(tier, seed):
     for k4, eng in enumerate([("SEA", "SEA", "SHADE"), ("DE", "SEAX", "CMAf"), ("SEA", "GA")]):
         descs.append(dict(engines=list(eng), gens=1, Mh=6, seed=s + k4, sprout={"kind": "nbc", "L": 3}, obj="twofunnel", pop=2 if eng[0] != "DE" else 6,
                           lsc=[None] * len(eng)))
+    # beyond the small scope (hmsmc/scale.py): populations of 100 / 150, more than 32 demes active on a level under each norm
+    from ..scale import big_population_worlds, many_deme_worlds
+
+    descs += [dict(d, sprout={"kind": "simple", "L": 3, "far": 0.4}) if d["sprout"]["kind"] == "simple" else d for d in big_population_worlds(tier, seed)[::2]]
+    descs += [d for d in many_deme_worlds(tier, seed) if d.get("scale") == "demes"]
     return [{"kind": "run", "descs": c} for c in chunks(descs, 8)]
 
 
